@@ -29,6 +29,8 @@ type Pack struct {
 	TimeoutS   int      `json:"timeout_s"`
 	Replays    []ReplayTemplate `json:"replay_templates"`
 	Effects    []EffectRule     `json:"effects"`
+	RecoverFirst []RecoverFirst `json:"recover_first"`
+	Enclosed   []Enclosed       `json:"enclosed"`
 	SafetyRules []string        `json:"safety_rules"` // opt-in safety rules, e.g. "map-key-hashable" (see hashable.go)
 }
 
@@ -211,6 +213,8 @@ func cmdCheck(repo, verifDir, id, tier string) int {
 	e.solveAll(all, work, &stats, tier == "thorough")
 	// effect contracts discharged by the typed call scan (already decided: no solver involved)
 	effObls := e.effectObligations(pack.Effects)
+	effObls = append(effObls, e.recoverFirstObligations(pack.RecoverFirst)...)
+	effObls = append(effObls, e.enclosedObligations(pack.Enclosed)...)
 	all = append(all, effObls...)
 	if len(effObls) > 0 {
 		stats.add("ast-scan", 0, true)
